@@ -65,6 +65,10 @@ const (
 	kfTreePath  = "KF-c12-tree-no-path"
 	kfTreeFatal = "KF-c12-tree-cast-fatal"
 	kfHostConv  = "KF-c12-host-arg-unconverted"
+	// an expression of static type ?any is accepted wherever ?T is expected; only an annotated let
+	// validates it at run time (FINDINGS.md §7)
+	kfOptAnyFlow = "KF-c12-optany-flow"
+	cOptAnyFlow  = "optany-flow"
 
 	cOptWrap   = "opt-wrap-unchecked"
 	cTreeAny   = "tree-anyobj"
@@ -317,9 +321,11 @@ func (c12) Cases(tier string, seed uint64) []fw.Case {
 	if thorough {
 		letxMax = 12
 	}
-	if enableOptAnyFlow {
-		stmts = letxStmts
-	}
+	// the neighbours of the annotated let (assignment, call argument, function result): part of the
+	// main workload unless KF-c12-optany-flow is open; then a small tagged poisoned workload
+	flowOpen := fw.KFOpen(kfOptAnyFlow)
+	flowMade := 0
+	stmts = letxStmts
 	for _, t := range types {
 		top := letxTop(t)
 		if top == "" {
@@ -356,9 +362,19 @@ func (c12) Cases(tier string, seed uint64) []fw.Case {
 			if stmt != "let" && t.K != vu.TOpt {
 				continue
 			}
+			var tags []string
+			if stmt != "let" && flowOpen {
+				if flowMade >= 24 {
+					continue
+				}
+				tags = []string{cOptAnyFlow}
+			}
 			for _, lib := range []string{"vm", "tree"} {
 				for _, form := range formsOf[lib] {
-					add(payload{Route: "letx", Lib: lib, T: t, Form: form, Stmt: stmt, Width: width, Avoid: avoid, Max: letxMax, Seed: rx.Next()})
+					if len(tags) > 0 {
+						flowMade++
+					}
+					add(payload{Route: "letx", Lib: lib, T: t, Form: form, Stmt: stmt, Width: width, Avoid: avoid, Max: letxMax, Seed: rx.Next()}, tags...)
 				}
 			}
 		}
